@@ -71,14 +71,32 @@ let ptn_outcome (data : string) : string =
 
 let colour = function "W" -> Some true | "B" -> Some false | _ -> None
 
+let parse_queries qs =
+  L.map (fun w -> match S.split_on_char ':' w with [n; c] -> (z_of_string n, colour c) | _ -> failwith "query") (words qs)
+
+let render_md5 g = Digest.to_hex (Digest.string (string_of_bytes (PtnFile.render g)))
+
+(* the observables of one parsed record under a list of queries (PositionAtMove is a function of the record) *)
+let ask spec g queries =
+  (* position_at_move = spec_position_at is a theorem (C12_position_at_move_spec); the extracted pair is compared on the
+     first queries of every case only, as a check of the extraction *)
+  L.mapi (fun i (n, c) ->
+    let r = PtnFileInst.ptn_position_at g n c in
+    if i < 3 then begin
+      let sp = PtnFileInst.ptn_spec_at g n c in
+      if pos_res r <> pos_res sp && !spec = None then
+        spec := Some (Printf.sprintf "position_at_move %s = %s but spec walk = %s" (string_of_z n) (pos_res r) (pos_res sp))
+    end;
+    "Q " ^ pos_res r) queries
+
 let run _args =
   run_cases (fun fs ->
     match L.map S.trim (S.split_on_char ';' (L.hd fs)) with
-    | [kind; gs; hex; qs] ->
+    | kind :: gs :: hex :: qs :: more ->
       let text = bytes_of_hex hex in
-      let queries = L.map (fun w -> match S.split_on_char ':' w with [n; c] -> (z_of_string n, colour c) | _ -> failwith "query") (words qs) in
+      let queries = parse_queries qs in
       let rok =
-        if kind = "G" then begin
+        if kind = "G" || kind = "H" then begin
           let g0 = dec_struct gs in
           let r = PtnFile.render g0 in
           let body = (match text with a :: b :: c :: rest when int_of_n a = 239 && int_of_n b = 187 && int_of_n c = 191 -> rest | _ -> text) in
@@ -88,18 +106,18 @@ let run _args =
       let l1 =
         (match PtnFile.parse_ptn text with
          | Move.Ok g ->
-           (* position_at_move = spec_position_at is a theorem (C12_position_at_move_spec); the extracted pair is compared on the
-              first queries of every case only, as a check of the extraction *)
-           let qres = L.mapi (fun i (n, c) ->
-             let r = PtnFileInst.ptn_position_at g n c in
-             if i < 3 then begin
-               let sp = PtnFileInst.ptn_spec_at g n c in
-               if pos_res r <> pos_res sp && !spec = None then
-                 spec := Some (Printf.sprintf "position_at_move %s = %s but spec walk = %s" (string_of_z n) (pos_res r) (pos_res sp))
-             end;
-             "Q " ^ pos_res r) queries in
-           S.concat " ; " (["rok=" ^ rok; "P " ^ enc_struct g; "R " ^ Digest.to_hex (Digest.string (string_of_bytes (PtnFile.render g)));
-                            "I " ^ pos_res (PtnFileInst.ptn_initial g); "Y " ^ replay_outcome g] @ qres)
+           let first = ["rok=" ^ rok; "P " ^ enc_struct g; "R " ^ render_md5 g;
+                        "I " ^ pos_res (PtnFileInst.ptn_initial g); "Y " ^ replay_outcome g] @ ask spec g queries in
+           let second = (match more with
+             | [ext; qs2] ->
+               (* history case: the same record extended by AddMoves / appended ops; the answers are those of the extended record *)
+               let (mode, ops) = (match words ext with [m; o] -> (m, (dec_struct ("tags= " ^ o)).PtnFile.ops) | _ -> failwith "ext") in
+               let g2 = if mode = "A"
+                 then PtnFile.add_moves g (L.filter_map (function PtnFile.OMove (m, _) -> Some m | _ -> None) ops)
+                 else PtnFile.append_ops g ops in
+               ["X " ^ enc_struct g2; "R2 " ^ render_md5 g2; "Y2 " ^ replay_outcome g2] @ ask spec g2 (parse_queries qs2)
+             | _ -> []) in
+           S.concat " ; " (first @ second)
          | r ->
            let cls = (match r with Move.Err -> "ERR" | _ -> "PANIC") in
            S.concat " ; " (["rok=" ^ rok; "P " ^ cls; "R -"; "I -"; "Y -"] @ L.map (fun _ -> "Q -") queries)) in
